@@ -88,6 +88,8 @@ type CRLSpec struct {
 	CRLF       bool
 	BadSig     bool // flip a bit of the signature value after signing
 	SigOverride []byte // use this signature value instead of signing (a signature replayed from another document)
+	AlgOID     asn1.ObjectIdentifier // when set: the OID written into both AlgorithmIdentifiers (the signature is still made with Alg)
+	AlgParams  int                   // with AlgOID: 0 = parameters absent, 1 = NULL
 	Sig        []byte // built: the signature value
 
 	DER   []byte // built
@@ -144,6 +146,15 @@ func (c *CRLSpec) Build() *CRLSpec {
 		ver = 2
 	}
 	algID := func(b *cryptobyte.Builder) {
+		if c.AlgOID != nil {
+			b.AddASN1(cbasn1.SEQUENCE, func(b *cryptobyte.Builder) {
+				b.AddASN1ObjectIdentifier(c.AlgOID)
+				if c.AlgParams == 1 {
+					b.AddASN1NULL()
+				}
+			})
+			return
+		}
 		b.AddASN1(cbasn1.SEQUENCE, func(b *cryptobyte.Builder) {
 			b.AddASN1ObjectIdentifier(sigAlgOID[c.Alg])
 			if c.Alg.IsRSA() && c.Alg != RSAPSSSHA256 {
